@@ -142,6 +142,19 @@ func VX_C14_Races(args []int) {
 			}
 			vxAssert(conn.nWrites() == 2 && got["/a"] == "from-a" && got["/c"] == "from-c", "[C01] pushes issued from two goroutines both go out, each with its own method and body")
 		}()
+	case 15: // a frame of an unsupported type on this session while another session keeps receiving calls
+		c2 := newVxConn("srv:1", "cli:7")
+		s2, st2 := p.ServeConn(c2)
+		vxAssume(st2.OK())
+		conn.feed(vxFrame(9, 31, "/h", []byte("u")))
+		c2.feed(vxFrame(TypeCall, 32, "/h", []byte("c")))
+		c2.feed(vxFrame(TypeCall, 33, "/h", []byte("d")))
+		run(func() { _ = s2.Health(); p.CountSession() })
+		n = 1
+		defer func() {
+			vxAssert(!s.Health(), "[C03] a frame of an unsupported type is answered by disconnecting its own session")
+			vxAssert(s2.Health() && c2.nWrites() == 2, "[C06] and every other session keeps working")
+		}()
 	case 6: // call vs remote close
 		run(func() { s.AsyncCall("/a", []byte("1"), new([]byte), make(chan CallCmd, 1)) })
 		conn.end()
